@@ -125,6 +125,28 @@ Agree(c, v) == AgreesWith(Violated(c), v)
 \* @type: ($case, Str) => Bool;
 AgreeTransit(c, v) == AgreesWith(ViolatedTransit(c), v)
 
+(* ----- the same judgement without sets (cheap for the SMT encoding) ----- *)
+(* TLC checks on the whole lattice that AgreeB = Agree for every verdict.   *)
+\* @type: ($case) => Bool;
+AnyOutgoingViolated(c) == BelowMin(c) \/ AboveMax(c) \/ Bandwidth(c) \/ ExpiryTooSoon(c) \/ ExpiryTooFar(c)
+\* @type: ($case) => Bool;
+AnyViolated(c) == FeeInsufficient(c) \/ AnyOutgoingViolated(c) \/ IncorrectCltvExpiry(c) \/ CltvDeltaTooFar(c)
+\* the rule(s) named by verdict v, restricted to forward / transit rules, one of them violated
+\* @type: ($case, Str, Bool) => Bool;
+NamedViolated(c, v, fwd) ==
+  IF v = "FeeInsufficient" THEN fwd /\ FeeInsufficient(c)
+  ELSE IF v = "AmountBelowMinimum" THEN BelowMin(c)
+  ELSE IF v = "HtlcExceedsMax" THEN AboveMax(c)
+  ELSE IF v = "InsufficientBalance" THEN Bandwidth(c)
+  ELSE IF v = "ExpiryTooSoon" THEN ExpiryTooSoon(c)
+  ELSE IF v = "ExpiryTooFar" THEN ExpiryTooFar(c) \/ (fwd /\ CltvDeltaTooFar(c))
+  ELSE IF v = "IncorrectCltvExpiry" THEN fwd /\ IncorrectCltvExpiry(c)
+  ELSE FALSE
+\* @type: ($case, Str) => Bool;
+AgreeB(c, v) == IF v = "ok" THEN ~AnyViolated(c) ELSE NamedViolated(c, v, TRUE)
+\* @type: ($case, Str) => Bool;
+AgreeTransitB(c, v) == IF v = "ok" THEN ~AnyOutgoingViolated(c) ELSE NamedViolated(c, v, FALSE)
+
 (* ----- division-free characterisation of the two fee terms ------------- *)
 (* Used as a check of the operators above (TLC on the lattice, Apalache    *)
 (* symbolically): f is the outbound / inbound fee iff it is the unique     *)
